@@ -565,10 +565,13 @@ func TestCliSan(t *testing.T) {
 		np = 1000
 	}
 	iface := &net.Interface{Index: 63, Name: "c63", HardwareAddr: cliMAC}
-	for i := 0; i < np; i++ {
-		c := genIfconfig(r)
-		var buf bytes.Buffer
-		callback.Cbhandler("/usr/bin/env -0", iface, log.New(&buf, "", 0))(context.Background(), &c)
+	// one handler for the whole sequence, as in the daemon (mclient builds it once): calls for a lease are
+	// interleaved with calls for a purge (nil configuration), whose environment must carry no lease parameters
+	var buf bytes.Buffer
+	cb := callback.Cbhandler("/usr/bin/env -0", iface, log.New(&buf, "", 0))
+	runHook := func(c *libif.Ifconfig) (ents, hx []string) {
+		buf.Reset()
+		cb(context.Background(), c)
 		out := buf.String()
 		j := strings.Index(out, "-> Command exited with output ")
 		if j < 0 {
@@ -578,12 +581,31 @@ func TestCliSan(t *testing.T) {
 		if err != nil {
 			t.Fatalf("unquote: %v", err)
 		}
-		var ents, hx []string
 		for _, e := range strings.Split(q, "\x00") {
 			if strings.HasPrefix(e, "PSA_DHCPC_") && !strings.HasPrefix(e, "PSA_DHCPC_INTERFACE=") {
 				ents = append(ents, e)
 				hx = append(hx, Hex([]byte(e)))
 			}
+		}
+		return
+	}
+	var hist []string
+	for i := 0; i < np; i++ {
+		if i == 0 || r.Chance(35) {
+			ents, _ := runHook(nil)
+			hist = append(hist, "hook purge")
+			s.Count("child-process-purge")
+			if len(ents) > 0 {
+				s.Find(Finding{Property: "C15", Signature: "purge-env", Stream: "clisan",
+					What: "the hook started for a purge (no lease) still receives lease parameters: the client has not dropped what an earlier ACK gave it",
+					Ops:  append([]string{}, hist...), Observed: strings.Join(ents, " ")})
+			}
+		}
+		c := genIfconfig(r)
+		ents, hx := runHook(&c)
+		hist = append(hist, "hook "+ifconfigLine(c))
+		if len(hist) > 12 {
+			hist = hist[len(hist)-12:]
 		}
 		op := "envconf " + ifconfigLine(c)
 		s.Op(op, "ok "+strings.Join(hx, ";"), true)
